@@ -362,6 +362,36 @@
   (while (def b (ev/read r 65536)) (buffer/push got b))
   (print (length got) (string/slice got 0 40)))
 
+(defscenario stream-reader-and-writer-pending
+  # one stream object with a parked reader AND a blocked writer; the stream is the only path to both fibers
+  (def path (string "/tmp/c01-duplex-" (os/getpid) ".sock"))
+  (def srv (net/listen :unix path))
+  (def peer-chan (ev/chan 1))
+  (ev/go (fn [] (ev/give peer-chan (net/accept srv))))
+  (def out @[])
+  (do
+    (def cli (net/connect :unix path))
+    (ev/go (fn [] (def tag (fresh "rdr")) (def b (ev/read cli 64)) (array/push out (string tag ":" b))))
+    (ev/go (fn [] (def data (buffer (fresh "wtr") (string/repeat "w" 2000000)))
+             (ev/write cli data) (array/push out (string "written:" (length data)))))
+    nil)
+  (def peer (ev/take peer-chan))
+  (os/rm path)
+  (ev/sleep 0)
+  (window (churn))
+  (var total 0)
+  (var head nil)
+  (while (< total 2000036)
+    (def b (ev/read peer 65536))
+    (if (nil? b) (break))
+    (when (nil? head) (set head (string/slice b 0 36)))
+    (+= total (length b)))
+  (ev/write peer "reply")
+  (ev/sleep 0.01)
+  (ev/close peer) (ev/close srv)
+  (ev/sleep 0.01)
+  (print total " " head " " (string/format "%j" (sorted out))))
+
 (defscenario stream-only-ref-from-fiber
   (def wr (do (def [r w] (os/pipe)) (ev/go (fn [] (print (ev/read r 16)) (ev/close r))) w))
   (ev/sleep 0)
